@@ -186,7 +186,7 @@ func cmdReplay(args []string) int {
 		return 2
 	}
 	spec = pickPart(spec, args[1])
-	r := &CheckRun{spec: spec, verifDir: "/verif", repoDir: "/repo"}
+	r := &CheckRun{spec: spec, verifDir: "/verif", repoDir: repoDefault()}
 	r.tmpDir, _ = os.MkdirTemp("", "gosym-")
 	defer os.RemoveAll(r.tmpDir)
 	r.prog, err = LoadProgram(spec, r.verifDir, r.repoDir)
@@ -233,7 +233,7 @@ func cmdRun(args []string) int {
 		return 2
 	}
 	spec = pickPart(spec, args[1])
-	prog, err := LoadProgram(spec, "/verif", "/repo")
+	prog, err := LoadProgram(spec, "/verif", repoDefault())
 	if err != nil {
 		fmt.Fprintln(os.Stderr, err)
 		return 2
@@ -291,4 +291,12 @@ func cmdRun(args []string) int {
 		fmt.Println("  note", n)
 	}
 	return 0
+}
+
+// repoDefault: the repository the replay/run sub-commands work on ($VERIF_REPO, default /repo).
+func repoDefault() string {
+	if d := os.Getenv("VERIF_REPO"); d != "" {
+		return d
+	}
+	return "/repo"
 }
